@@ -481,7 +481,8 @@ def focus_module(rng):
     ints = [0, 1, -1, 127, 128, -128, -129, 255, 256, 32767, 32768, -32769, 2 ** 31 - 1, 2 ** 31, -2 ** 31 - 1, 2 ** 32, 2 ** 56 - 1, -2 ** 56,
             2 ** 63 - 1, -2 ** 63, rng.randrange(-2 ** 63, 2 ** 63), rng.randrange(-2 ** 40, 2 ** 40)]
     reals = [0, 0x8000000000000000, 0x7ff0000000000000, 0xfff0000000000000, 0x3ff0000000000000, 0xbff8000000000000, 0x3ff0200000000000,
-             0x7fefffffffffffff, 0x0010000000000000, 0x3fb999999999999a, (rng.randrange(1, 2047) << 52) | rng.getrandbits(52)]
+             0x7fefffffffffffff, 0x0010000000000000, 0x3fb999999999999a, (rng.randrange(1, 2047) << 52) | rng.getrandbits(52),
+             0x0000000000000003, 0x800fffffffffffff, rng.getrandbits(52) | 1]   # subnormals (F1 repaired)
     # FU / FSeq.u / FCh.d.x are `unsigned long` natively: the whole range 0 .. 2^64-1 (finding F20 repaired)
     uints = [v for v in ints if v >= 0] + [2 ** 63, 2 ** 63 + 1, 2 ** 64 - 2, 2 ** 64 - 1, rng.randrange(2 ** 63, 2 ** 64)]
     vals = {"FI": ints, "FNm": ints[:8], "FU": uints, "FX": [0, 7, 8, -1, 1000, 2 ** 40],
